@@ -16,7 +16,8 @@
    and position list; the restriction to position i has Jacobian column i. *)
 From Coq Require Import List Arith ZArith Ring.
 Import ListNotations.
-From AG Require Import Operators Run16 PolyDeriv Argnum RunArg.
+From AG Require Import Operators Run16 PolyDeriv Argnum RunArg ArgnumTie.
+From AGGen Require Import GenArgnum.
 
 Section OperatorLaws.
   Variable K : Type.
@@ -92,6 +93,14 @@ Theorem C16_argnum_selects_the_jacobian_column :
   forall (p : poly) (x : list Z) (i r : nat) (h : Z), i < pn p -> i < length x ->
     evalf p (subval Z x i (zn x i + h)%Z) r = (evalf p x r + h * Jp p x r i + h * h * b_ p r i i)%Z.
 Proof. exact restriction_derivative. Qed.
+
+(* the argument-selection model is what the translator reads off util.subvals and wrap_util.unary_to_nary on this run *)
+Theorem C16_argnum_model_follows_source :
+  (forall (A : Type) (x : list A) (ivs : list (nat * A)), subvals A x ivs = gen_subvals A x ivs)
+  /\ (forall (A : Type) (d : A) (B C : Type) (op1 : (A -> B) -> A -> C) (opn : (list A -> B) -> list A -> C) f an args,
+        nary_operator A d B C op1 opn f an args = gen_nary_operator A d B C op1 opn f (to_gen an) args).
+Proof. exact (conj subvals_follows_source nary_operator_follows_source). Qed.
+Print Assumptions C16_argnum_model_follows_source.
 
 Print Assumptions C16_jacobian_entries_and_shape.
 Print Assumptions C16_grad_is_the_row.
